@@ -9,10 +9,13 @@ segments are collinear, rescaled (order preserving) to arc length.  The orientat
 NOT assumed (`start` may be larger than `end`): `segments_3d` takes `max/min` itself.
 
 `line_tessellation` is a double loop over all pairs of cells (there is no sweep in the code); for
-collinear segments `segments_3d` answers
+collinear segments `segments_3d` (as of /repo commit d86841392) answers
   * `None`                      if `max_1 < min_2` or `max_2 < min_1`,
-  * the two middle points of the four sorted end points otherwise (also when the cells only touch),
-and `line_tessellation` appends `(i, j, |X[:,0] - X[:,1]|)`.
+  * ONE point                   if the two middle points of the four sorted end points are closer than
+                                `tol = 1e-8` in the sorting coordinate ("end to end"),
+  * the two middle points       otherwise,
+and `line_tessellation` appends `(i, j, 0.0)` for one point and `(i, j, |X[:,0] - X[:,1]|)` for two.
+The tolerance enters the model as `ptol` = `tol` expressed in the unit of the line parameter.
 -/
 namespace PorepyVerif.C33
 
@@ -34,9 +37,13 @@ def isort : List Rat → List Rat
   | [] => []
   | x :: l => insertS x (isort l)
 
-/-- collinear branch of `segments_3d` followed by the length computation of `line_tessellation`:
-    `none` = no intersection reported, `some w` = reported with common length `w` (possibly 0). -/
-def pairOverlap (c d : Cell) : Option Rat :=
+/-- `line_tessellation`'s weight of the answer of `segments_3d`: a single point (middle points closer
+    than `ptol`) has weight 0, a segment its length -/
+def snap (ptol v : Rat) : Rat := if v < ptol then 0 else v
+
+/-- collinear branch of `segments_3d` followed by the weight computation of `line_tessellation`:
+    `none` = no intersection reported, `some w` = reported with weight `w` (possibly 0). -/
+def pairOverlap (ptol : Rat) (c d : Cell) : Option Rat :=
   let max1 := rmax c.1 c.2
   let min1 := rmin c.1 c.2
   let max2 := rmax d.1 d.2
@@ -45,24 +52,25 @@ def pairOverlap (c d : Cell) : Option Rat :=
   else if max2 < min1 then none
   else
     match isort [c.1, c.2, d.1, d.2] with
-    | [_, x, y, _] => some (dist x y)   -- `sort_ind[1:3]`
-    | _ => none                          -- unreachable: four values stay four values
+    | [_, x, y, _] => some (snap ptol (dist x y))   -- `sort_ind[1:3]`
+    | _ => none                                      -- unreachable: four values stay four values
 
-/-- inner loop of `line_tessellation` (`for j in range(l2.shape[1])`), `j` = index of the head of `ds` -/
-def rowTess (i : Nat) (c : Cell) : Nat → List Cell → List Triple
+/-- inner loop of `line_tessellation` (`for j in range(l2.shape[1])`), `j` = index of the head of `ds`;
+    `f` = what `segments_3d` + the weight computation answer for a pair of cells -/
+def rowTess (f : Cell → Cell → Option Rat) (i : Nat) (c : Cell) : Nat → List Cell → List Triple
   | _, [] => []
   | j, d :: ds =>
-    match pairOverlap c d with
-    | none => rowTess i c (j + 1) ds
-    | some w => (i, j, w) :: rowTess i c (j + 1) ds
+    match f c d with
+    | none => rowTess f i c (j + 1) ds
+    | some w => (i, j, w) :: rowTess f i c (j + 1) ds
 
 /-- outer loop (`for i in range(l1.shape[1])`), `i` = index of the head of the first list -/
-def tessFrom : Nat → List Cell → List Cell → List Triple
+def tessFrom (f : Cell → Cell → Option Rat) : Nat → List Cell → List Cell → List Triple
   | _, [], _ => []
-  | i, c :: cs, ds => rowTess i c 0 ds ++ tessFrom (i + 1) cs ds
+  | i, c :: cs, ds => rowTess f i c 0 ds ++ tessFrom f (i + 1) cs ds
 
 /-- `line_tessellation(p1, p2, l1, l2)` for two lists of collinear cells -/
-def lineTess (c1 c2 : List Cell) : List Triple := tessFrom 0 c1 c2
+def lineTess (ptol : Rat) (c1 c2 : List Cell) : List Triple := tessFrom (pairOverlap ptol) 0 c1 c2
 
 /-- `Grid.cell_volumes` of a 1-D grid: distance of the two nodes of the cell -/
 def cellVol (c : Cell) : Rat := dist c.1 c.2
@@ -94,16 +102,20 @@ def dense (m n : Nat) (T : List Triple) : List (List Rat) :=
   tabFrom (fun i => tabFrom (fun j => entry T i j) 0 n) 0 m
 
 /-- `match_1d(new_g, old_g, tol, scaling).toarray()`; rows = cells of the new grid `c1` -/
-def match1d (mode : Scaling) (c1 c2 : List Cell) : List (List Rat) :=
-  dense c1.length c2.length (scaleTriples mode c1 c2 (lineTess c1 c2))
+def match1d (ptol : Rat) (mode : Scaling) (c1 c2 : List Cell) : List (List Rat) :=
+  dense c1.length c2.length (scaleTriples mode c1 c2 (lineTess ptol c1 c2))
 
 /-! ### vocabulary of the specification -/
 
-/-- strictly increasing node list `a_0 < a_1 < … < a_m` -/
-def strictInc : List Rat → Bool
+/-- strictly increasing node list `a_0 < a_1 < … < a_m` whose cells are not shorter than `ptol` -/
+def gapInc (ptol : Rat) : List Rat → Bool
   | [] => true
   | [_] => true
-  | x :: y :: l => decide (x < y) && strictInc (y :: l)
+  | x :: y :: l => decide (x < y) && decide (ptol ≤ y - x) && gapInc ptol (y :: l)
+
+/-- nodes of the two tessellations either coincide or are at least `ptol` apart -/
+def sepNodes (ptol : Rat) (a b : List Rat) : Bool :=
+  a.all (fun x => b.all (fun y => decide (x = y) || decide (ptol ≤ dist x y)))
 
 /-- the cells `[a_i, a_{i+1}]` of a node list -/
 def cells : List Rat → List Cell
